@@ -7,9 +7,10 @@ CONSTANTS
   Target = 60000
   InitMs = 120000
   MaxEpoch = 2
+  BaseMin = 28000000
   K = 0
 CONSTRAINT Bound
 VIEW View
-INVARIANTS MinuteIsRoundedClock CompareAgreesWithClock Emit
+INVARIANTS MinuteIsRoundedClock CompareAgreesWithClock BigAgrees Emit
 PROPERTIES TimeNeverDecreases RoundsAdvanceWithinEpoch EpochStepsByOne RefusedChangesNothing
 CHECK_DEADLOCK FALSE
